@@ -129,6 +129,7 @@ SHORT_USER = {
 TYPE_FAULTS = {'type': 'def zq: Int := "bad"', 'type-undefined-name': 'print(zq_undefined)', 'type-none': 'def zq: Int := None', 'type-undefined-function': 'def zq: Int := zq_nofun(1)',
                'type-operand': 'def zq := 1 + "s"', 'type-undefined-method': 'def zq := "s".zq_nomethod()', 'type-reassign-undefined': 'zq_nowhere := 1',
                'type-undefined-in-nested-interpolation': 'print("padding padding padding {1 + 2} and more {"inner text {zq_undefined} tail"} end")',
+               'type-undefined-in-deep-nested-interpolation': 'print("a {1 + 2 + 3 + 4 + 5 + 6 + 7 + 8 + 9 + 10 + 11 + 12 + 13 + 14 + 15 + 16 + 17 + "to {zq_undefined} x"}")',
                'type-undefined-in-interpolation-after-non-ascii': 'print("ééééééééééééééééééééééé {zq_undefined} é")'}
 
 def code_lines(src):
